@@ -5,4 +5,4 @@ ROOT="$(cd "$(dirname "${BASH_SOURCE[0]}")" && pwd)"
 export CARGO_NET_OFFLINE=true CARGO_TARGET_DIR="$ROOT/target" RUSTFLAGS="--cfg simple_dns_verif"
 mkdir -p "$ROOT/evidence" "$ROOT/replays"
 cp /repo/Cargo.lock "$ROOT/mc/Cargo.lock"
-cd "$ROOT/mc" && cargo build --release --offline
+cd "$ROOT/mc" && cargo build --release --offline && cargo build --profile nda --offline
